@@ -261,4 +261,45 @@ theorem readFromOffset_textureG (inflate : Inflate) (hdr : Bytes) (mips : List (
   simp only [readFromOffset, hfi]
   exact readTextureFile_eq inflate whole pre.length _ _ _ _ _ _ _ _ hlods hne0 hhdr hall
 
+/-! ### the LOD walk in its most general form: every chain sits where its record says
+
+No relation between the places of different chains is needed (any order, any distance, they may
+even share bytes): the reader restarts at `compressed_offset` for every LOD.  `readAllLodsG_ok` is
+the instance the `Spec` encoder `packTextureG` produces. -/
+
+/-- LOD records for chains `p.2` placed at offsets `p.1` (relative to the end of the file-info header) -/
+def lodsAt : Nat → List (Nat × List Block) → List TextureLodBlock
+  | _, [] => []
+  | idx, (off, m) :: ms =>
+    { compressedOffset := off.toUInt32, compressedSize := (encodeBlocks m).length.toUInt32,
+      decompressedSize := (contents m).length.toUInt32, blockOffset := idx.toUInt32,
+      blockCount := m.length.toUInt32 } :: lodsAt (idx + m.length) ms
+
+theorem readAllLods_at (inflate : Inflate) (whole : Bytes) (start : Nat) :
+    ∀ (pl : List (Nat × List Block)) (idx : Nat) (T : Bytes),
+      (∀ p ∈ pl, (∀ b ∈ p.2, b.wf = true ∧ Deflated inflate b) ∧
+        (∃ X, whole.drop (start + p.1) = encodeBlocks p.2 ++ X) ∧
+        p.1 + (encodeBlocks p.2).length < 4294967296 ∧
+        start + p.1 + (encodeBlocks p.2).length < 18446744073709551616) →
+      readAllLods inflate whole start (lodsAt idx pl) (sizeTable (pl.map Prod.snd).flatten ++ T) =
+        some (some (contents (pl.map Prod.snd).flatten)) := by
+  intro pl
+  induction pl with
+  | nil => intros; rfl
+  | cons p ms ih =>
+    obtain ⟨off, m⟩ := p
+    intro idx T h
+    obtain ⟨hb, ⟨X, hw⟩, h32, h64⟩ := h (off, m) (by simp)
+    simp only at hb hw h32 h64
+    simp only [List.map_cons, List.flatten_cons]
+    have hge := encLen_ge m
+    have hcount : m.length.toUInt32.toNat = m.length := toUInt32_toNat _ (by omega)
+    have hoff : off.toUInt32.toNat = off := toUInt32_toNat _ (by omega)
+    have hw' : whole.drop (off + start) = encodeBlocks m ++ X := by rw [Nat.add_comm]; exact hw
+    have hlod := readLodBlocks_ok inflate whole m (off + start)
+      (sizeTable (ms.map Prod.snd).flatten ++ T) X hb hw' (by omega)
+    have ih' := ih (idx + m.length) T (fun p hp => h p (by simp [hp]))
+    simp only [lodsAt, readAllLods, hcount, hoff, sizeTable_append, List.append_assoc, hlod, ih',
+      contents_append]
+
 end Physis.Dat
